@@ -74,6 +74,34 @@ impl Case {
 fn gen_layout(rng: &mut Rng, w: usize, h: usize, ncolors: usize) -> Vec<usize> {
     // index image over 0..ncolors; every colour appears when there is room
     let mut idx = vec![0usize; w * h];
+    if w >= 900 {
+        // wide images: within a 6-row band all rows agree, so that identical sixels repeat over
+        // segments of 1..5 or of about a thousand columns (4-digit repeat counts and gaps)
+        for band in 0..h.div_ceil(6) {
+            let mut col = 0;
+            let mut colour = rng.below(ncolors);
+            while col < w {
+                let seg = match rng.below(4) {
+                    0 => rng.range(1, 5),
+                    1 => *rng.pick(&[998usize, 999, 1000, 1001, 1023, 1024, 1100]),
+                    _ => rng.range(900, 1400),
+                };
+                for c in col..(col + seg).min(w) {
+                    for row in band * 6..(band * 6 + 6).min(h) {
+                        idx[row * w + c] = colour;
+                    }
+                }
+                col += seg;
+                colour = (colour + 1 + rng.below(ncolors.max(2) - 1)) % ncolors;
+            }
+        }
+        // a few single pixels of other colours (their registers see long blank gaps)
+        for _ in 0..rng.range(0, 3) {
+            let at = rng.below(idx.len());
+            idx[at] = rng.below(ncolors);
+        }
+        return idx;
+    }
     match rng.below(6) {
         // independent pixels
         0 | 1 => {
@@ -168,6 +196,13 @@ impl Prop for C12 {
         } else {
             (iw, ih)
         };
+        // every 45th case is a wide strip: repeat counts and blank gaps of four digits
+        let wide = !edge && index % 45 == 4 && !cfg!(miri);
+        let (iw, ih) = if wide {
+            (*rng.pick(&[1000usize, 1001, 1024, 1100, 1234, 2050]), *rng.pick(&[6usize, 6, 7, 12]))
+        } else {
+            (iw, ih)
+        };
         let crop = rng.chance(1, 4);
         let (w, h, window) = if crop {
             let top = rng.range(0, 5);
@@ -189,7 +224,13 @@ impl Prop for C12 {
             5 => 0, // arbitrary 24-bit pixels
             _ => rng.range(1, 256),
         };
-        let ncolors = if edge { 256 } else { ncolors };
+        let ncolors = if edge {
+            256
+        } else if wide {
+            rng.range(1, 4)
+        } else {
+            ncolors
+        };
         let style = if edge { 6 } else { rng.below(10) }; // 0..=5 opaque, 6,7 with holes, 8,9 partial alpha
         let mut set: BTreeSet<[u8; 3]> = BTreeSet::new();
         let clustered = rng.chance(1, 3);
@@ -497,6 +538,8 @@ impl Prop for C12 {
 
         ctx.feat_n("sixel.repeat-introducers", pic.repeats);
         ctx.feat_n("sixel.blank-repeats", pic.blank_repeats);
+        ctx.feat_if(pic.max_repeat >= 1000, "sixel.repeat-count>=1000");
+        ctx.feat_if(pic.max_blank_repeat >= 1000, "sixel.blank-gap>=1000");
         ctx.feat_n("sixel.carriage-returns", pic.carriage_returns);
         ctx.feat_n("sixel.bands", pic.newlines);
         ctx.feat_if(ih % 6 != 0, "image.height-not-multiple-of-6");
